@@ -57,6 +57,31 @@ fn hex(b: &[u8]) -> String {
     o
 }
 
+/// Field offsets of a constant whose (pointee) type is a struct: `,"fields":[[name, offset, size], ...]` — constants of
+/// library types (ranges) are decoded from their bytes by the rule layer, which must not guess the field order.
+fn struct_fields_json<'tcx>(tcx: TyCtxt<'tcx>, env: TypingEnv<'tcx>, ty: Ty<'tcx>) -> String {
+    let inner = match ty.kind() {
+        ty::Ref(_, t, _) => *t,
+        _ => ty,
+    };
+    let ty::Adt(def, args) = inner.kind() else { return String::new() };
+    if !def.is_struct() {
+        return String::new();
+    }
+    let Ok(l) = tcx.layout_of(env.as_query_input(inner)) else { return String::new() };
+    let mut o = String::from(",\"fields\":[");
+    for (i, f) in def.non_enum_variant().fields.iter().enumerate() {
+        if i > 0 {
+            o.push(',');
+        }
+        let fty = f.ty(tcx, args);
+        let sz = tcx.layout_of(env.as_query_input(fty)).map(|x| x.size.bytes()).unwrap_or(0);
+        let _ = write!(o, "[{},{},{}]", js(&f.name.to_string()), l.fields.offset(i).bytes(), sz);
+    }
+    o.push(']');
+    o
+}
+
 /// Pointers stored in a constant allocation from byte `from` on: [[offset relative to `from`, hex of the target bytes
 /// (at most 256, starting at the pointed-to offset)], ..] - lets the rule layer read string literals held in constant
 /// tables such as `[(&str, Enum); N]`.
@@ -270,6 +295,7 @@ impl<'a, 'tcx> BodyCx<'a, 'tcx> {
                                 if let Some(b) = self.alloc_bytes(prov.alloc_id(), off.bytes(), None) {
                                     if b.len() <= 65536 {
                                         let _ = write!(o, ",\"bytes\":\"{}\"", hex(&b));
+                                        o.push_str(&struct_fields_json(self.tcx, self.env, ty));
                                     }
                                 }
                                 // &&str / &&[u8]: follow the inner fat pointer to the literal
@@ -307,6 +333,7 @@ impl<'a, 'tcx> BodyCx<'a, 'tcx> {
                                 if let Some(b) = self.alloc_bytes(alloc_id, offset.bytes(), None) {
                                     if b.len() <= 65536 {
                                         let _ = write!(o, ",\"bytes\":\"{}\"", hex(&b));
+                                        o.push_str(&struct_fields_json(self.tcx, self.env, ty));
                                     }
                                 }
                             }
